@@ -8,9 +8,33 @@ CHECKS = {
  "C01": ("E1", "exploration", "property-based testing (proptest, seeded): generated (type expression, value) cases, round-trip oracle",
          "Generated-input search: hundreds of thousands of (type expression, value) pairs over the whole built-in codec vocabulary (every constructor forced at the root, nesting to depth 3/4, boundary pools) are round-tripped through the real codecs; a violation is shrunk to a minimal replay file. Exploration, not proof: it shows absence of failures on what was generated.",
          "Trusts the harness bridge `Live` (dispatches every node to the real desert impl of the concrete type) and chrono/bigdecimal value constructors; TZ=UTC pinned.", "5.1"),
+ "C03": ("E3", "exploration", "property-based testing over generated evolution histories (legal by construction) x all writer/reader version pairs, logical-level oracle",
+         "Histories of evolution steps are generated from selector specs and built so that every one is legal; each (history, writer version, reader version, value, placement) case is executed through the real AdtSerializer/AdtDeserializer and compared with the documented outcome computed on the logical level (defaults, wrap/unwrap, absent-if-optional, the two specific errors with field names), including that sibling data after the record is intact.",
+         "Trusts the run-time interpreter that drives AdtSerializer/AdtDeserializer like the derive expansion (validated against the real expansion by C02's compiled declarations) and DESIGN section 9 for the excluded combination.", "5.3"),
  "C04": ("E1", "exploration", "property-based differential testing against an independent reference codec (vmodel::refcodec), both directions",
-         "Every generated value is encoded by desert and by an independent reference encoder written from the format description (no shared code) and compared byte for byte; conversely reference encodings in forms the Rust writer never emits (unknown-length sequences) must decode to the denoted value. The reference is anchored to Scala-produced bytes (golden file).",
-         "Trusts the reference model as the statement of the format (DESIGN section 4); anchors: golden/dataset1.bin and the pinned 14-byte Point vector.", "5.4"),
+         "Every generated value is encoded by desert and by an independent reference encoder written from the format description (no shared code) and compared byte for byte; conversely reference encodings in forms the Rust writer never emits (unknown-length sequences) must decode to the denoted value.",
+         "Trusts the reference model as the statement of the format (DESIGN section 4).", "5.4"),
+ "C05": ("E4+E1+E6", "fault_enumeration", "exhaustive enumeration of short byte strings + random and structure-aware mutation fuzzing (proptest-driven) under a tracking allocator and a crash/hang supervisor, in two build profiles",
+         "Totality of decoding is attacked with every byte string of length <= 2 (<= 3 thorough) for a fixed type list, random byte strings, site-aware tamperings of valid encodings and adversarial BinaryInput call sequences; the oracle is Ok-or-Err with no unwind, no process death, no hang and a heap bound measured by a tracking allocator. Finds crashes by search; says nothing about inputs it did not generate beyond the exhaustive sub-space.",
+         "Known findings F12/F13 are excluded by construction and counted; allocation bound constants are the harness's reading of 'bounded multiple of the input length' (DESIGN section 5.5).", "5.5"),
+ "C06": ("E1", "fault_enumeration", "structure-aware mutation fuzzing of valid encodings, differential against the strict reference decoder (implication oracle)",
+         "Framing faults (chunk sizes, counts, lengths, tags, position and version bytes, splices, duplications) are injected into valid encodings at the sites of the reference encoder's site map; whenever desert accepts the result, the strict reference decoder must accept it with the same value.",
+         "Trusts the reference decoder with exactly the leniencies of DESIGN section 4.5.", "5.6"),
+ "C07": ("E1", "exploration", "property-based testing: generated values and suffixes, remaining-input oracle on the public DeserializationContext",
+         "Values (one, or 2-5 back to back) followed by generated suffixes are decoded from one context which is then drained: the drained bytes must be exactly the suffix.",
+         "Observation through the public BinaryInput impl of DeserializationContext; evolved records across versions are covered by C03's whole-buffer oracle.", "5.7"),
+ "C08": ("E1", "fault_enumeration", "exhaustive truncation of generated valid encodings (every cut point per value)",
+         "For every generated value every strict prefix of its encoding is decoded and must be rejected; cut points are enumerated exhaustively per value and classified by the site they land in.",
+         "Soundness of the oracle rests on C07 (exact consumption).", "5.8"),
+ "C11": ("E4", "exploration", "exhaustive enumeration (thorough: all 2^32 u32 and i32 values) / boundary neighbourhoods + seeded random values against an independent formula",
+         "Thorough tier enumerates the complete domain in the release profile; quick tier covers +-4096 around every width boundary, a lattice and random values of every bit length, in both profiles. Oracle: bytes, minimal length, continuation bits, size calculator and read-back through all three inputs.",
+         "Reference formula in vmodel::refcodec (LEB128 / zig-zag), independent of desert.", "5.11"),
+ "C12": ("E1", "exploration", "property-based testing: generated element lists x source container x target container x size form",
+         "What one container wrote is read as every other container of the family, in the writer's known-length form, the writer's unknown-length form and the reference encoder's unknown-length form.",
+         "Hash containers are compared as sets/maps; the written order is taken from the very instance that was serialized.", "5.12"),
+ "C15": ("E5", "exploration", "property-based testing: one instance to six sinks + size calculator; generated primitive-read op sequences on the three inputs (differential)",
+         "Sinks: byte-identical streams or identical errors, exact size. Inputs: op-by-op agreement of SliceInput, OwnedInput and DeserializationContext on generated read sequences with adversarial counts.",
+         "A user-defined BinaryOutput of the harness stands for 'any' custom output.", "5.15"),
 }
 
 NOT_YET = {
@@ -45,7 +69,10 @@ def main():
             "add_only": True,
         },
         "engines": [
-            {"name": "E1", "path": "harness/vcheck/src/props/builtin.rs", "serves_properties": ["C01", "C04"], "kind_free_text": "proptest strategies over (type expression, value), run by a seeded sharded driver with manual shrinking; oracle = round-trip / independent reference codec"},
+            {"name": "E1", "path": "harness/vcheck/src/props/", "serves_properties": ["C01", "C04", "C05", "C06", "C07", "C08", "C12"], "kind_free_text": "proptest strategies over (type expression, value, fault), run by a seeded sharded driver with manual shrinking; oracles: round-trip, independent reference codec, remaining input, truncation, allocation/time budget"},
+            {"name": "E3", "path": "harness/vcat/src/dynrec.rs", "serves_properties": ["C03", "C05", "C06"], "kind_free_text": "run-time interpreter of generated declarations driving AdtSerializer/AdtDeserializer like the derive expansion"},
+            {"name": "E4", "path": "harness/vcheck/src/props/varint.rs", "serves_properties": ["C11", "C05"], "kind_free_text": "exhaustive enumerators (all 32-bit values; all short byte strings)"},
+            {"name": "E5", "path": "harness/vcheck/src/props/sinks.rs", "serves_properties": ["C15", "C05"], "kind_free_text": "generated operation sequences on the BinaryInput implementations, differential"},
         ],
         "checks": checks,
         "not_applicable": na,
